@@ -1,0 +1,15 @@
+//go:build verif
+
+package utils
+
+// Contracts for the deductive checker in /verif (comment-only file, no declarations).
+// The two unsafe conversions re-type the same memory: the result views exactly the argument's bytes.
+
+//@ func Bytes2StrUnsafe(b []byte) (s string)
+//@   trusted
+//@   modifies nothing
+//@   ensures len(s) == len(b) && sameSlice(s, b, 0, len(b))
+//@ func Str2BytesUnsafe(s string) (b []byte)
+//@   trusted
+//@   modifies nothing
+//@   ensures len(b) == len(s) && sameSlice(b, s, 0, len(s))
